@@ -48,7 +48,8 @@ ASSUMPTIONS = [
 SHRINK = ['steps', 'ops']
 KINDS = ['file', 'file', 'file', 'demo:mapping:mapping', 'demo:file:file',
          'mapping', 'hex:file', 'hex:demo:mapping:mapping']
-CLASSES = ['Merge', 'Merge', 'Merge', 'Cell', 'Boom', 'Boom2', 'MergeNA']
+CLASSES = ['Merge', 'Merge', 'Merge', 'Cell', 'Boom', 'Boom2', 'MergeNA',
+           'Flaky', 'Flaky']
 
 
 class MergeNA(objs.Merge):
@@ -300,7 +301,13 @@ def run_conn(case):
                         expect[oid] = ('plain', new_state)
                         continue
                     cls = type(o).__name__
-                    if not resolving or cls not in ('Merge', 'MergeNA'):
+                    if not resolving or cls not in ('Merge', 'MergeNA',
+                                                    'Flaky'):
+                        conflict_expected = True
+                        continue
+                    if cls == 'Flaky' and new_state.get('n', 0) % 2:
+                        # this resolver fails for these inputs (and must
+                        # be asked again next time)
                         conflict_expected = True
                         continue
                     old_rec = [r for t_, r in log.revisions(oid)
